@@ -215,7 +215,7 @@ def run(ctx: Ctx) -> None:
     rep.floor("C17.R4", n4, 4)
 
     # ---- R6 registration consistency --------------------------------------------------------------
-    reg = prog.classes.get("dds.codec.CodecRegistry")
+    reg = prog.cls("dds.codec.CodecRegistry")
     if reg is None:
         raise AnchorError("dds.codec.CodecRegistry not found")
     n6 = 0
@@ -318,7 +318,7 @@ def run(ctx: Ctx) -> None:
         rep.ok("C17.R8", reg.qname, "registered references stay registered (no removal from the reference table)", reg.module.relpath)
     rep.rule("C17.R12", "codec_registry() hands out the process-wide registry object: every return gives the module global it (lazily) initialises - a codec registered through "
                         "`store.codec_registry()` must be the one the next store_blob consults")
-    cr = prog.funcs.get("dds.codec.codec_registry")
+    cr = prog.func("dds.codec.codec_registry")
     if cr is None:
         raise AnchorError("dds.codec.codec_registry not found")
     globs12 = {nm for x in cr.own_nodes() if isinstance(x, ast.Global) for nm in x.names} | {nm for nm in cr.module.assigns if nm.startswith("_")}
